@@ -636,6 +636,8 @@ def simulate(w, eff, mode):
             # the running total of the last row of an account is its converted sum
             blocks.append({"t": "register", "rows": sorted(rows), "totals": balance_rows(eff["sel"]["register"])})
     exp = {"rc": 0, "audit": ntxn if eff["audit"] else None, "blocks": blocks}
+    if mode == "files" and not eff["reports"]:
+        exp["audit"] = None          # the metadata block is written into the report files only
     if mode == "files":
         exp["equity"] = None
         exp["identity"] = None
@@ -970,6 +972,7 @@ def dedup_for_files(f, c):
 class C19(PropBase):
     id = "C19"
     needs_cli = True
+    _budget = 8
 
     # -- cases
     def mk(self, kind, f, c, mode="console"):
@@ -1120,6 +1123,10 @@ class C19(PropBase):
                 ("fs+git-ref", {"input.fs.dir": "txns", "input.fs.ext": "txn", "input.git.ref": "main"}),
                 ("fs+git-repo", {"input.fs.dir": "txns", "input.fs.ext": "txn", "input.git.repository": "repo1/.git",
                                  "input.git.dir": "txns", "input.git.ref": "main"}),
+                ("fs-ext+git-ref", {"input.fs.ext": "jrnl", "input.git.ref": "main"}),
+                ("fs-ext+git-commit", {"input.fs.ext": "jrnl", "input.git.commit": w.sha("conf/repo1", "c1", 8)}),
+                ("fs-ext+git-repo", {"input.fs.ext": "jrnl", "input.git.repository": "repo1/.git", "input.git.dir": "txns",
+                                     "input.git.ref": "main"}),
                 ("fs-dir-only", {"input.fs.dir": "txns"}),
                 ("fs-ext-only", {"input.fs.ext": "txn"}),
                 ("git-repo-no-dir", {"input.git.repository": "repo1/.git", "input.git.ref": "main"}),
@@ -1194,12 +1201,24 @@ class C19(PropBase):
             out.append(self.mk("shadowed:fs-dir", f, {"input.fs.dir": "txns", "input.fs.ext": "txn"}))
         return out
 
+    def clap_grid(self, rng, w):
+        """every present/absent combination of the eight input options (contract test of the clap attributes)"""
+        vals = {"input.file": "j.txn", "input.storage": "git", "input.fs.dir": "txns", "input.fs.ext": "jrnl",
+                "input.git.repository": WTOKEN + "/conf/repo1/.git", "input.git.ref": "side",
+                "input.git.commit": w.sha("conf/repo1", "c1", 10), "input.git.dir": "other"}
+        out = []
+        for bits in itertools.product([False, True], repeat=len(INPUT_OPTS)):
+            c = {k: vals[k] for k, b in zip(INPUT_OPTS, bits) if b}
+            out.append(self.mk("clap-grid", base_file(), c))
+        return out
+
     def gen(self, rng, tier, focus=None):
         w = world()
         out = []
         if focus is None:
+            out += self.clap_grid(rng, w)
             out += self.boundary(rng, w, 1 if tier == "quick" else 12)
-            n = 220 if tier == "quick" else 9000
+            n = 700 if tier == "quick" else 9000
         else:
             out += self.boundary(rng, w, 1)
             n = 60
@@ -1215,7 +1234,7 @@ class C19(PropBase):
 
     # -- running
     def impl_case(self, case):
-        return {k: v for k, v in case.items() if k not in ("corpus_file",)}
+        return {k: v for k, v in case.items() if k not in ("corpus_file", "_min")}
 
     def model_case(self, case):
         w = world()
@@ -1315,6 +1334,12 @@ class C19(PropBase):
                     if d:
                         key = d[0]
                 opts = sorted(k for k, v in cli.items() if v is not None and k not in RESIDUAL)
+                if not case.get("_min") and self._budget > 0:
+                    # name the options that are needed for the difference (first few failures of a run only)
+                    self._budget -= 1
+                    small = self.shrink({"case": case, "oracle": {"sig": "override-equiv:" + key}})["case"]
+                    opts = sorted(k for k, v in small["cli"].items() if v is not None)
+                    key = key + ":" + "+".join(opts)
                 return {"sig": "override-equiv:" + key,
                         "what": "the run with the options %s differs from the run with their values written into the "
                                 "configuration file (exit %d vs %d)" % (opts, run["rc"], eq["rc"]),
@@ -1337,6 +1362,34 @@ class C19(PropBase):
                     "effective": spec, "stderr": run["err"]}
         return None
 
+    def shrink(self, failure):
+        """greedy: drop options, then reset file keys to the base file, while the same kind of oracle failure remains"""
+        case = copy.deepcopy(failure["case"])
+        cls = ":".join(failure["oracle"]["sig"].split(":")[:2])
+
+        def fails(cand):
+            cand = dict(cand, _min=True)
+            o = self.oracle(cand, self.run_case(self.impl_case(cand)))
+            return o is not None and ":".join(o["sig"].split(":")[:2]) == cls
+        for k in list(case["cli"]):
+            cand = copy.deepcopy(case)
+            del cand["cli"][k]
+            if fails(cand):
+                case = cand
+        base = base_file()
+        for k in list(case["file"]):
+            if case["file"][k] != base[k]:
+                cand = copy.deepcopy(case)
+                cand["file"][k] = copy.deepcopy(base[k])
+                if fails(cand):
+                    case = cand
+        out = dict(failure)
+        out["case"] = case
+        if "impl" in failure:
+            out["impl"] = self.run_case(self.impl_case(case))
+            out["oracle"] = self.oracle(dict(case, _min=True), out["impl"]) or failure["oracle"]
+        return out
+
     def nontrivial(self, case, impl):
         c = {k: v for k, v in case["cli"].items() if v is not None}
         return len(c) > 0
@@ -1348,7 +1401,7 @@ class C19(PropBase):
     def rule(self):
         return ("(tackler.toml, option set) pairs on the probe world (11 journal files in three directory trees, three "
                 "git repositories with branches/tag/two commits, three price files; every journal unit k has weight 2^k so "
-                "that every figure identifies the set of loaded files): boundary classes = each overridable key x {file "
+                "that every figure identifies the set of loaded files): boundary classes = all 256 presence combinations of the eight input options, each overridable key x {file "
                 "only, cli only, both equal, both different}, price file/lookup type, --price.before with/without "
                 "given-time, per-report vs global vs command-line selectors incl. the documented empty selector, all 8 "
                 "input shapes, '.txn' vs 'txn', every rejected combination, configuration files rejected by themselves, "
@@ -1370,7 +1423,7 @@ class C19(PropBase):
         return ["Env: the working directory is absolute; reading the price file \"\" fails (hypotheses hcwd/hdb of override_equiv)",
                 "override_equiv is stated for option sets clap accepts and configuration files Config::from accepts; "
                 "for the others `contradictions` shows the run is rejected",
-                "the model is the tree with fixes F15, F191, F192 applied (fixes/*.diff)"]
+                "the model is the tree with fixes F15, F191, F192, F193 applied (fixes/*.diff)"]
 
 
 PROP = C19()
